@@ -330,7 +330,9 @@ func (w *world) opsFor(evk rlwe.EvaluationKeySet) *ops {
 	o.traceNew = ev.TraceNew
 	o.add = func(a, b, cc *rlwe.Ciphertext) error { return ev.Add(a, b, cc) }
 	if w.np > 0 {
-		o.hoisted = func(in *rlwe.Ciphertext, ks []int) (map[int]*rlwe.Ciphertext, error) { return ev.RotateHoistedNew(in, ks) }
+		o.hoisted = func(in *rlwe.Ciphertext, ks []int) (map[int]*rlwe.Ciphertext, error) {
+			return ev.RotateHoistedNew(in, ks)
+		}
 		o.hoistedLazy = func(in *rlwe.Ciphertext, ks []int) (map[int]*rlwe.Ciphertext, error) {
 			ev.DecomposeNTT(in.Level(), levelP, levelP+1, in.Value[1], in.IsNTT, ev.BuffDecompQP)
 			m, err := ev.RotateHoistedLazyNew(in.Level(), ks, in, ev.BuffDecompQP)
